@@ -165,7 +165,10 @@ def run_integrate(sc: Scenario, fns=None, checkpoint_lengths=None, return_states
         except _NoCrossCheck:
             out["engine_limit"] = True
         except Exception as e2:
-            out["engine_limit"] = False
+            # the real code raises natively as well - but only the SAME kind of exception confirms what the stub run saw; a
+            # different one (e.g. the native step refusing forward Euler on a branched cell, which the stubbed step never
+            # executes) leaves the stub-run exception an artefact of the engine
+            out["engine_limit"] = type(e2).__name__ != type(e).__name__
             out["native_exception"] = f"{type(e2).__name__}: {str(e2)[:150]}"
     out["writes"] = list(m._writes)
     out["calls"] = list(m._calls)
